@@ -51,10 +51,11 @@ def handleReduce (j : Json) : Except String Json := do
   let terms ← j.getObjVal? "terms" >>= polyOfJson
   let m ← j.getObjVal? "mapping" >>= mappingOfJson
   let n ← j.getObjVal? "n" >>= Json.getNat?
+  let cdeg ← j.getObjVal? "cdeg" >>= Json.getNat?
   let deg ← j.getObjVal? "deg" >>= optNat
   let lam ← j.getObjVal? "lam" >>= lamOfJson
   let pairs ← (← j.getObjVal? "pairs" >>= Json.getArr?).toList.mapM natList
-  match route spin target terms m n deg lam pairs with
+  match routeC spin target terms m n cdeg deg lam pairs with
   | .error e => pure (errJson e)
   | .ok out =>
     match out.red with
